@@ -646,9 +646,20 @@ func c16gen(r *hlib.Rng, np, nh, n int, sched bool, cfg c16cfg) []c16op {
 				}
 			}
 			var nb []int
-			if r.Chance(40) {
-				for i, m := 0, r.Intn(4); i < m; i++ {
-					nb = append(nb, r.Intn(np))
+			if r.Chance(55) {
+				// neighbours: mostly peers that hold a slot for this torrent, so the mutual limit is met
+				var held []int
+				for q := 0; q < np; q++ {
+					if q != p && sh.st[[2]int{h, q}] != 0 {
+						held = append(held, q)
+					}
+				}
+				for i, m := 0, r.Range(1, 3); i < m; i++ {
+					if len(held) > 0 && r.Chance(70) {
+						nb = append(nb, held[r.Intn(len(held))])
+					} else {
+						nb = append(nb, r.Intn(np))
+					}
 				}
 			}
 			if sched && r.Chance(35) { // the same through a real incoming handshake (neighbours are a set)
